@@ -17,6 +17,17 @@ CHECKS.update({
          "Agreement with d-separation is decided for every acyclic case explored; symmetry/adjacency for cyclic ones. Held = no monitor fired.",
          "trusts O3; cyclic graphs only for the symmetry and adjacency clauses (as the property states)", "DESIGN §4 C20"),
 })
+CHECKS.update({
+ "C01": ("post-condition on the real identify_outcomes/identify: estimand denoted on K random positive SCMs (exact rational functional-SCM engine O1/O2) vs P(y|do x) for all assignments; hostile ADMG generator + trace-guided feedback towards line 7; example-graph corpus",
+         "Each returned estimand is evaluated exactly on sampled compatible models and compared with the model's own interventional distribution for every value assignment, including every other free variable. Held = equal on all (case, model, assignment) triples listed in the evidence.",
+         "trusts O1/O2 and the reading conventions of DESIGN §3; models are sampled, n<=6 nodes", "DESIGN §4 C01"),
+ "C02": ("exception recorder + deep-freeze snapshots + Tian-Pearl reference verdict (O4) + activation counter on the real identify_outcomes/identify; exhaustive ADMGs n<=3 x all queries, random hostile ADMGs n<=8, 40-call histories on a shared graph",
+         "Totality, purity, completeness and bounded progress are decided per call by independent monitors. Held = no monitor fired on the executions listed.",
+         "trusts O4 (sound and complete reference identifiability); graphs beyond 3 nodes are sampled", "DESIGN §4 C02"),
+ "C03": ("post-condition on the real identify_outcomes(conditions=)/idc: estimand vs P(y,z|do x)/P(z|do x) on K exact random SCMs for all assignments; exception recorder; C04 monitor riding on IDC's rule-2 queries",
+         "As C01 for the conditional query, plus the 'never fails in another way' clause by the exception recorder.",
+         "trusts O1/O2; sampled models and graphs (n<=5)", "DESIGN §4 C03"),
+})
 PLANNED = {}
 
 def main():
